@@ -1,6 +1,6 @@
-import SqlObjVerif.Model.Slice
+import SqlObjVerif.Model.SliceX
 import SqlObjVerif.Model.DrvUtil
-/-! Driver for C10.  Request: `<dialect> <n> <a:b>* [i=<int>]` with `-` for an omitted bound.
+/-! Driver for C10 (runs the TRANSLATED `__getitem__`: `stepSelX` / `finishX`).  Request: `<dialect> <n> <a:b>* [i=<int>]` with `-` for an omitted bound.
     Answer: `<result> | <window clause tokens of the final select, or "list">`. -/
 open SqlObjVerif SqlObjVerif.Slice SqlObjVerif.DrvUtil
 
@@ -47,8 +47,8 @@ def handle (line : String) : String :=
       | some ix =>
         let ops := ops.filterMap id
         let xs := List.range n
-        let sel := ops.foldl (stepSel d xs) (.q ⟨0, none⟩)
-        showOut (finish d xs sel ix) ++ " | " ++ showSel d sel
+        let sel := ops.foldl (stepSelX d xs) (.q ⟨0, none⟩)
+        showOut (finishX d xs sel ix) ++ " | " ++ showSel d sel
     | _, _ => "bad-op"
   | _ => "bad-op"
 
